@@ -949,6 +949,21 @@ def S1(ctx, rule="S1"):
                 pl0 = rv0["pl"] if rv0["k"] != "use" else (rv0["op"].get("pl") if rv0["op"]["k"] != "const" else None)
                 if pl0 is not None and all(pr == "*" for pr in pl0["p"]):
                     defs0 = list(get_defs(hb).of(pl0["l"]))
+            if len(defs0) == 1 and defs0[0][0] == "call" and arm_order(ctx, hb, defs0[0][1]) is None and callee_path(defs0[0][3]) in COPY_FNS and \
+                    defs0[0][3]["args"] and defs0[0][3]["args"][0]["k"] != "const" and all(pr == "*" for pr in defs0[0][3]["args"][0]["pl"]["p"]):
+                # `let counts = match order { .. }; counts.to_vec()`: the arms select a slice, the copy is made once at the join
+                l0_ = defs0[0][3]["args"][0]["pl"]["l"]
+                for _hop in range(3):
+                    d0_ = get_defs(hb).unique_full(l0_)
+                    if d0_ and d0_[0] == "stmt" and d0_[3]["rv"]["k"] in ("use", "ref", "copy_for_deref"):
+                        rv0_ = d0_[3]["rv"]
+                        pl0_ = rv0_["pl"] if rv0_["k"] != "use" else (rv0_["op"].get("pl") if rv0_["op"]["k"] != "const" else None)
+                        if pl0_ is not None and all(pr == "*" for pr in pl0_["p"]):
+                            l0_ = pl0_["l"]
+                            continue
+                    break
+                if len(get_defs(hb).of(l0_)) >= 2:
+                    defs0 = list(get_defs(hb).of(l0_))
             for kind_, dbb, si_, x_ in defs0:
                 o_ = arm_order(ctx, hb, dbb)
                 if o_ is None:
@@ -2307,6 +2322,8 @@ def S5(ctx, rule="S5"):
                     for c in walk_expr(a):
                         if c.kind == "call" and c[1] in LOOKUP_FNS:
                             looked.append((c[2][0], c[2][1]))
+                        elif c.kind == "index" and len(c) > 2:
+                            looked.append((c[1], c[2]))      # `table[id.index()]` on a slice: a place projection, not a call
                 if not looked:
                     # the lookup may sit in a private helper (`fn_mut_borrow(table, id)`): use its return expression with the
                     # arguments of this call substituted
